@@ -234,9 +234,10 @@ def r_respawn_guard(e, R):
 # R-SPAWN-SITE / R-SPAWN-LOCKED
 # ---------------------------------------------------------------------------
 
-SPAWN_UNLOCKED_OK = {
-    "_ReusablePoolExecutor._resize": "serialised with submit by the resize lock; pending is empty so the manager's respawn guard is false",
-}
+def _spawn_unlocked_ok(e):
+    """Callers of the spawn routine that may run without the management lock, by role (never by name)."""
+    from .reusable import resize_func
+    return {resize_func(e).qualname: "the resize routine: serialised with submit by the resize lock; pending is empty so the manager's respawn guard is false"}
 
 
 def r_spawn_locked(e, R):
@@ -250,8 +251,8 @@ def r_spawn_locked(e, R):
         n += 1
         held = e.held_full(cf, c)
         ok = e.token_in(held, a.pml)
-        if not ok and cf.short in SPAWN_UNLOCKED_OK:
-            R.ok("R-SPAWN-LOCKED", f"{cf.short}: spawn without the management lock (accepted: {SPAWN_UNLOCKED_OK[cf.short]})", e.loc(cf, c))
+        if not ok and cf.qualname in _spawn_unlocked_ok(e):
+            R.ok("R-SPAWN-LOCKED", f"{cf.short}: spawn without the management lock (accepted: {_spawn_unlocked_ok(e)[cf.qualname]})", e.loc(cf, c))
             continue
         R.check(ok, "R-SPAWN-LOCKED", f"{cf.short}: spawn routine called under the processes management lock", cf.short, norm(c),
                 "workers are spawned without the processes management lock: an idle worker can time out concurrently "
